@@ -29,6 +29,14 @@ CHECKS = {
             'exist in sector equations, supplier rules and global equations) the emitted text is checked for placeholders, duplicate '
             'or non-canonical names, dangling references and meaning preservation against the sector-local equations.',
             'DESIGN.md section 6 C05'),
+    'C06': (['Sector', 'Sector_Trace'],
+            'TLA+ spec Sector.tla (variable definitions, F / INC ledgers as coefficient bags, exclusions, registration log) '
+            'model-checked by TLC; every TLC-generated history replayed on a real Sector inside a real Model with the ledgers '
+            'evaluated on two integer valuations after every call; traces validated by TLC against Sector_Trace.tla',
+            'All histories (<=3 quick, <=4 thorough) of AddVariable / AddCashFlow / Exclude / SetRHS over the bounded alphabet are '
+            'enumerated by TLC with C06_F, C06_INC, C06_DefineOnce stated over the registration history; each is executed on the '
+            'real classes and judged call by call.',
+            'DESIGN.md section 6 C06'),
     'C07': (['ModelBuild', 'ModelBuild_Trace'], MB,
             'TLC checks C07_NumeraireValueZero and C07_RefusedWithoutExternal over all two-currency blueprints; rebuilt models use '
             'non-unit time-varying exchange rates and are checked exactly: credit = x*XR_src/XR_tgt, numeraire value of the FX '
@@ -76,6 +84,13 @@ CHECKS = {
             'All histories (<=4 quick, <=5 thorough) of Get / MutateHeld / SetSuppress / SetCutoff / RenderTable / BaseCsv are '
             'enumerated by TLC with the action property C16_ReadsArePure and invariants; each is executed on the real objects.',
             'DESIGN.md section 6 C16'),
+    'C18': (['ModelBuild', 'ModelBuild_Trace'], MB,
+            'TLC checks every ModelBuild invariant on renamed twins and on joint models of two currencies, plus C18_ZoneIsolation; '
+            'sampled behaviours are rebuilt as generated and under a seeded injective renaming of country / sector / goods-labour '
+            'codes, and sets of 2-3 economies are built alone and jointly (with / without an unused external sector); exact series '
+            'are compared under the renaming / the country prefix (observed vs observed) and the joint dependency graph is '
+            'checked for cross-zone references.',
+            'DESIGN.md section 6 C18'),
     'C19': (['Table', 'Table_Trace'],
             'TLA+ spec Table.tla (names as code-point sequences, header order, row count) model-checked by TLC; TLC-generated '
             'holders replayed on a real TimeSeriesHolder with seeded values and formats, solved models and solver blocks '
